@@ -362,6 +362,19 @@ func (v *V@G@) PInc() { v.a++ }
 		"\t\tv := V@G@{1, 2}\n\t\tf := v.Sum\n\t\tv.a = 100\n\t\tprintln(f(), v.Sum())")
 	add("func|value-receiver|method expression T.M", "", vdecl,
 		"\t\tv := V@G@{1, 2}\n\t\tf := V@G@.Sum\n\t\tprintln(f(v))\n\t\tg := (*V@G@).Sum\n\t\tprintln(g(&v))")
+	// every way of reaching a value-receiver method through a pointer, followed by fresh allocations:
+	// if the call dropped a reference of the receiver's block, the new objects reuse it
+	for _, form := range [][3]string{
+		{"p.M()", "", "println(p.Sum())"},
+		{"method value p.M", "f := p.Sum", "println(f())"},
+		{"method expression (*T).M", "g := (*V@G@).Sum", "println(g(p))"},
+		{"method expression T.M", "h := V@G@.Sum", "println(h(*p))"},
+		{"through interface", "var s interface{ Sum() int32 } = p", "println(s.Sum())"},
+		{"deferred", "", "func() {\n\t\t\tdefer p.Sum()\n\t\t}()"},
+	} {
+		add("func|value-receiver|receiver stays alive|"+form[0], "the receiver's block must survive the call", vdecl,
+			"\t\tp := &V@G@{1, 2}\n\t\t"+form[1]+"\n\t\t"+form[2]+"\n\t\t"+form[2]+"\n\t\tq := &V@G@{7, 8}\n\t\tr := &V@G@{9, 10}\n\t\tprintln(p.a, p.b, q.a, r.b)")
+	}
 	add("func|value-receiver|on named integer", "", "type VI@G@ int32\n\nfunc (m VI@G@) Twice() int32 { return int32(m) * 2 }\n",
 		"\t\tvar m VI@G@ = 21\n\t\tprintln(m.Twice(), VI@G@(4).Twice())")
 
